@@ -5,6 +5,7 @@ Oracle (real code only): real write -> real read equals the content the program 
 dtype, last property values with their TDMS type chosen by magnitude, names, version).
 """
 import io
+import shutil
 import os
 import struct
 import sys
@@ -149,6 +150,65 @@ def check_read_back(prog, data, nptdms, version, model):
     return out
 
 
+def type_change_probe(ctx, nptdms, stats):
+    import tempfile
+    from nptdms import TdmsWriter, ChannelObject, TdmsFile
+    rnd = ctx.rnd
+    out = []
+    stats["type_change"] = 0
+    arrays = {"int32": np.array([1, 2], dtype=np.int32), "uint8": np.array([3, 4], dtype=np.uint8), "float64": np.array([0.5], dtype=np.float64),
+              "float32": np.array([1.5, 2.5], dtype=np.float32), "empty float64": np.array([], dtype=np.float64), "str": ["a", "b"],
+              "datetime64": np.array(["2020-01-01T00:00:00"], dtype="datetime64[us]"), "complex64": np.array([1 + 2j], dtype=np.complex64)}
+    tcode = dict(int32=3, uint8=5, float64=10, float32=9, str=0x20, datetime64=0x44, complex64=0x08000c)
+    tcode["empty float64"] = 10
+    names = sorted(arrays)
+    for it in range(ctx.n(12, 200)):
+        a, b = ("int32", "uint8") if it == 0 else rnd.sample(names, 2)
+        if tcode[a] == tcode[b]:
+            continue
+        for across in (False, True):
+            stats["type_change"] += 1
+            d = tempfile.mkdtemp(prefix="nptdms_verif_c07_")
+            p = os.path.join(d, "t.tdms")
+            accepted, err = True, None
+            try:
+                if across:
+                    with TdmsWriter(p) as w:
+                        w.write_segment([ChannelObject("g", "c", arrays[a]), ChannelObject("g", "other", np.array([7, 8], dtype=np.int16))])
+                    with TdmsWriter(p, mode="a") as w:
+                        w.write_segment([ChannelObject("g", "c", arrays[b])])
+                else:
+                    with TdmsWriter(p) as w:
+                        w.write_segment([ChannelObject("g", "c", arrays[a]), ChannelObject("g", "other", np.array([7, 8], dtype=np.int16))])
+                        w.write_segment([ChannelObject("g", "c", arrays[b])])
+            except Exception as ex:  # noqa: refused = not an accepted sequence
+                accepted, err = False, ex
+            if accepted:
+                try:
+                    f = TdmsFile.read(p)
+                    got = list(f["g"]["c"][:])
+                    ok = len(got) == len(arrays[a]) + len(arrays[b]) and [int(x) for x in f["g"]["other"][:]] == [7, 8]
+                    why = "channel read back as %r" % (got[:6],)
+                except Exception as ex:  # noqa
+                    ok, why = False, "reading the file raised %s: %s" % (type(ex).__name__, str(ex)[:160])
+                if not ok:
+                    where = "in a second writer session (append mode)" if across else "in a later segment of the same writer session"
+                    out.append(Violation("TdmsWriter accepted channel /'g'/'c' written as %s and then as %s %s; %s" % (a, b, where, why),
+                                         dict(kind="type-change", first=a, second=b, across_sessions=across),
+                                         signature="type-change-across-sessions" if across else None))
+            shutil.rmtree(d, ignore_errors=True)
+            if len([v for v in out if v.signature is None]) >= 2:
+                return out
+    # one line per known signature is enough
+    seen, uniq = set(), []
+    for v in out:
+        if v.signature and v.signature in seen:
+            continue
+        seen.add(v.signature)
+        uniq.append(v)
+    return uniq
+
+
 def run(ctx):
     nptdms = ctx.nptdms()
     model = ctx.get_model() if ctx.build_ok else None
@@ -189,6 +249,10 @@ def run(ctx):
             break
         if ctx.tier == "quick" and ctx.elapsed() > 40:
             break
+    # a channel written with two different data types (the generator above keeps one type per channel): TDMS has one type per
+    # channel, so the only way to honour "reading returns the concatenation of the arrays written, with the same dtype" is to
+    # refuse the second write; an accepted sequence whose file cannot be read back is a violation
+    violations += type_change_probe(ctx, nptdms, stats)
     # _infer_dtype: model vs real, and soundness on the real code
     from nptdms import writer as W
     for _ in range(ctx.n(600, 20000)):
